@@ -322,8 +322,8 @@ class Check:
             if i.status == "discharged":
                 by_backend[i.backend] = by_backend.get(i.backend, 0) + 1
         level = level_if_complete
-        if level == "proof" and (n_dis != n_ob or n_ob == 0):
-            level = "other"
+        if level == "proof" and (n_dis != n_ob or n_ob == 0 or self.violations):
+            level = "other"          # a run that reports a violation proves nothing
         if n_ob == 0 and not self.bounded:
             raise RuntimeError("vacuity: the check generated no obligation at all")
         samples = [i.as_json() for i in prov[:5]]
